@@ -33,7 +33,8 @@ theorem good_of_disk_eq {W : Nat} {c : List Block} {n n' : Node} (hg : Good W c 
 /-- A Store of any fresh block from a good node, with any crash: good again (for the same chain
 when the block is refused, for the extended chain when it is the next block). -/
 theorem store_any_good {W : Nat} (hW : 0 < W) (fx : Fixes) {c : List Block} {n : Node} {b : Block}
-    (hg : Good W c n) (hfr : Fresh n.disk b) (ft : Fault) (hft : ∀ k, ft ≠ .failAt k) :
+    (hg : Good W c n) (hfr : Extends n.disk b → Fresh n.disk b) (ft : Fault) (hft : ∀ k, ft ≠ .failAt k)
+    (hb : ft ≠ .failInit ∧ ft ≠ .crashInit) :
     ∃ c', Good W c' (exec W fx n (.store b) ft).1 := by
   have hen := expectedNext_of_coh hg.coh
   have refused : ∀ p : Plan, plan W fx n (.store b) = p → p.disk0 = n.disk → p.commits = [] →
@@ -41,10 +42,14 @@ theorem store_any_good {W : Nat} (hW : 0 < W) (fx : Fixes) {c : List Block} {n :
     intro p hp h0 hcm hmem
     refine ⟨c, good_of_disk_eq hg ?_ ?_⟩
     · cases ft with
+      | failInit => exact absurd rfl hb.1
+      | crashInit => exact absurd rfl hb.2
       | none => simp only [exec, hp, hcm, h0, applyCommits, List.foldl_nil]
       | failAt k => exact absurd rfl (hft k)
       | crashAfter k => simp only [exec, hp, hcm, h0, applyCommits, List.take_nil, List.foldl_nil]
     · cases ft with
+      | failInit => exact absurd rfl hb.1
+      | crashInit => exact absurd rfl hb.2
       | none =>
         cases hout : p.out with
         | ok => simp only [exec, hp, memAfter, hmem, hout]; exact hg.mem
@@ -61,12 +66,22 @@ theorem store_any_good {W : Nat} (hW : 0 < W) (fx : Fixes) {c : List Block} {n :
     · exact refused _ (by simp only [plan, storePlan]; rw [if_neg h1, if_pos h2]) rfl rfl rfl
     · by_cases h3 : stateRoot n.disk ≠ b.oldRoot
       · exact refused _ (by simp only [plan, storePlan]; rw [if_neg h1, if_neg h2, if_pos h3]) rfl rfl rfl
-      · have hn : NextBlock c n.disk b := by
-          refine ⟨?_, ?_, ?_, hfr⟩
+      by_cases h4 : b.applied ≠ b.root
+      · exact refused _ (by simp only [plan, storePlan]; rw [if_neg h1, if_neg h2, if_neg h3, if_pos h4]) rfl rfl rfl
+      · have hext : Extends n.disk b :=
+          Prod.ext (Classical.not_not.mp h1) (Classical.not_not.mp h2)
+        have hn : NextBlock c n.disk b := by
+          refine ⟨?_, ?_, ?_, Classical.not_not.mp h4, hfr hext⟩
           · have := Classical.not_not.mp h1; rw [hen] at this; exact this.symm
           · have := Classical.not_not.mp h2; rw [hen] at this; exact this.symm
           · have := Classical.not_not.mp h3; rw [hg.coh.state] at this; exact this.symm
-        exact ⟨c ++ [b], store_good hW fx hg hn ft hft⟩
+        refine ⟨c ++ [b], store_good hW fx hg hn ft ?_⟩
+        cases ft with
+        | none => exact Or.inl rfl
+        | failAt k => exact absurd rfl (hft k)
+        | crashAfter k => exact Or.inr ⟨k, rfl⟩
+        | failInit => exact absurd rfl hb.1
+        | crashInit => exact absurd rfl hb.2
 
 /-- Writing the snapshot of a filter that describes the chain gives a good disk. -/
 theorem snap_put_good {W : Nat} {c : List Block} {d : Disk} {f : Filt} (hc : Coh c d)
@@ -90,7 +105,7 @@ theorem snap_put_good {W : Nat} {c : List Block} {d : Disk} {f : Filt} (hc : Coh
 
 /-- snapshot / graceful restart from a good node, any fault. -/
 theorem snap_good {W : Nat} (hW : 0 < W) (fx : Fixes) {c : List Block} {n : Node} (hg : Good W c n)
-    (op : Op) (hop : op = .snap ∨ op = .restart) (ft : Fault) :
+    (op : Op) (hop : op = .snap ∨ op = .restart) (ft : Fault) (hb : ft ≠ .failInit ∧ ft ≠ .crashInit) :
     Good W c (exec W fx n op ft).1 := by
   obtain ⟨hg1, f, hmem, hf⟩ := ensureInit_good' hW hg
   obtain ⟨hc2, hw2, hs2⟩ := snap_put_good hg1.coh hg1.wins hf
@@ -106,6 +121,8 @@ theorem snap_good {W : Nat} (hW : 0 < W) (fx : Fixes) {c : List Block} {n : Node
   have hready : MemOK W c (.ready f) := hf
   rcases hop with rfl | rfl
   · cases ft with
+    | failInit => exact absurd rfl hb.1
+    | crashInit => exact absurd rfl hb.2
     | none => simp only [exec, plan, hsp, memAfter]; exact applied _ hready
     | failAt k =>
       simp only [exec, plan, hsp, memAfter, fst_ite]
@@ -117,6 +134,8 @@ theorem snap_good {W : Nat} (hW : 0 < W) (fx : Fixes) {c : List Block} {n : Node
       · exact applied _ hready
     | crashAfter k => simp only [exec, plan, hsp, List.take_succ_cons, List.take_nil]; exact applied _ trivial
   · cases ft with
+    | failInit => exact absurd rfl hb.1
+    | crashInit => exact absurd rfl hb.2
     | none => simp only [exec, plan, hsp, memAfter]; exact applied _ trivial
     | failAt k =>
       simp only [exec, plan, hsp, memAfter, fst_ite]
@@ -130,7 +149,7 @@ theorem snap_good {W : Nat} (hW : 0 < W) (fx : Fixes) {c : List Block} {n : Node
 
 /-- set-L1-head / kill from a good node, any fault. -/
 theorem misc_good {W : Nat} (fx : Fixes) {c : List Block} {n : Node} (hg : Good W c n)
-    (op : Op) (hop : (∃ v, op = .l1head v) ∨ op = .kill) (ft : Fault) :
+    (op : Op) (hop : (∃ v, op = .l1head v) ∨ op = .kill) (ft : Fault) (hb : ft ≠ .failInit ∧ ft ≠ .crashInit) :
     Good W c (exec W fx n op ft).1 := by
   have hput : ∀ v, Good W c ⟨applyCommits n.disk [[.put .l1head (.num v)]], n.mem⟩ ∧
       Good W c ⟨applyCommits n.disk [[.put .l1head (.num v)]], .lazy⟩ := by
@@ -150,6 +169,8 @@ theorem misc_good {W : Nat} (fx : Fixes) {c : List Block} {n : Node} (hg : Good 
     ⟨hg.wf, hg.coh, hg.wins, hg.snap, hm⟩
   rcases hop with ⟨v, rfl⟩ | rfl
   · cases ft with
+    | failInit => exact absurd rfl hb.1
+    | crashInit => exact absurd rfl hb.2
     | none => simp only [exec, plan, memAfter]; exact (hput v).1
     | failAt k =>
       by_cases hk : k < (plan W fx n (.l1head v)).commits.length
@@ -162,12 +183,74 @@ theorem misc_good {W : Nat} (fx : Fixes) {c : List Block} {n : Node} (hg : Good 
         simp only [exec, plan, memAfter]; exact (hput v).1
     | crashAfter k => simp only [exec, plan, List.take_succ_cons, List.take_nil]; exact (hput v).2
   · cases ft with
+    | failInit => exact absurd rfl hb.1
+    | crashInit => exact absurd rfl hb.2
     | none => simp only [exec, plan, memAfter]; exact hsame _ trivial
     | failAt k =>
       have hk : ¬ k < (plan W fx n .kill).commits.length := by simp [plan]
       rw [exec_failAt_ge hk]
       simp only [exec, plan, memAfter]; exact hsame _ trivial
     | crashAfter k => simp only [exec, plan, List.take_nil]; exact hsame _ trivial
+
+/-! ### Faults inside the lazy filter initialisation -/
+
+theorem plan_disk0 (W : Nat) (fx : Fixes) (n : Node) (op : Op) (hp : ∀ e, op ≠ .prune e) :
+    (plan W fx n op).disk0 = n.disk ∨ (plan W fx n op).disk0 = (ensureInit W n).disk := by
+  cases op with
+  | store b =>
+    simp only [plan, storePlan]
+    repeat' split
+    all_goals first | exact Or.inl rfl | exact Or.inr rfl
+  | revert =>
+    simp only [plan, revertPlan]
+    repeat' split
+    all_goals first | exact Or.inl rfl | exact Or.inr rfl
+  | l1head v => exact Or.inl rfl
+  | snap =>
+    simp only [plan, snapPlan]
+    split <;> exact Or.inr rfl
+  | restart =>
+    simp only [plan, snapPlan]
+    split <;> exact Or.inr rfl
+  | kill => exact Or.inl rfl
+  | prune e => exact absurd rfl (hp e)
+
+/-- A crash right after the lazy initialisation's write, before the call's own commit: the disk
+differs from the node's at most by complete, sound windows; good again. -/
+theorem crashInit_good {W : Nat} (hW : 0 < W) (fx : Fixes) {c : List Block} {n : Node} (hg : Good W c n)
+    (op : Op) (hp : ∀ e, op ≠ .prune e) : Good W c (exec W fx n op .crashInit).1 := by
+  obtain ⟨hg1, _⟩ := ensureInit_good' hW hg
+  show Good W c ⟨(plan W fx n op).disk0, .lazy⟩
+  rcases plan_disk0 W fx n op hp with h | h
+  · rw [h]; exact ⟨hg.wf, hg.coh, hg.wins, hg.snap, trivial⟩
+  · rw [h]; exact ⟨hg1.wf, hg1.coh, hg1.wins, hg1.snap, trivial⟩
+
+/-- The failing initialisation write: the call behaves as without the fault (the initialisation
+was not needed or needs no write), or nothing reaches the disk and the filter is what
+`ensureInit` leaves after a failed initialisation, passed through the error handling of the call. -/
+theorem exec_failInit (W : Nat) (fx : Fixes) (n : Node) (op : Op) :
+    exec W fx n op .failInit = exec W fx n op .none ∨
+    (exec W fx n op .failInit).1 =
+      ⟨n.disk, memAfter fx op (.err .init) (if fx.retryInit then .lazy else .broken)⟩ := by
+  simp only [exec]
+  split
+  · exact Or.inr rfl
+  · exact Or.inl rfl
+
+theorem memAfter_lazy (fx : Fixes) (op : Op) (o : Out) : memAfter fx op o .lazy = .lazy := by
+  unfold memAfter
+  split <;> (try split) <;> rfl
+
+/-- … with the repaired `ensureInit` (the error is not kept) the node stays good. -/
+theorem failInit_good {W : Nat} {fx : Fixes} (hi : fx.retryInit = true) {c : List Block} {n : Node}
+    (hg : Good W c n) (op : Op) :
+    exec W fx n op .failInit = exec W fx n op .none ∨ Good W c (exec W fx n op .failInit).1 := by
+  rcases exec_failInit W fx n op with h | h
+  · exact Or.inl h
+  · right
+    rw [h]
+    simp only [hi, if_true, memAfter_lazy]
+    exact ⟨hg.wf, hg.coh, hg.wins, hg.snap, trivial⟩
 
 /-- Histories without RevertHead / prune. -/
 def NoRevert : List (Op × Fault) → Prop
@@ -194,16 +277,24 @@ theorem good_run_no_revert {W : Nat} (hW : 0 < W) (fx : Fixes) :
     simp only [NoRevert] at hnr
     simp only [NoFailedChainCommit] at hnf
     simp only [run]
+    have hpr : ∀ e, op ≠ .prune e := by
+      intro e he; subst he; exact hnr.1
     have step : ∃ c', Good W c' (exec W fx n op ft).1 := by
+      by_cases hci : ft = .crashInit
+      · subst hci; exact ⟨c, crashInit_good hW fx hg op hpr⟩
+      have hfi : ft ≠ .failInit := by
+        intro e; subst e
+        cases op <;> exact hnf.1
+      have hb : ft ≠ .failInit ∧ ft ≠ .crashInit := ⟨hfi, hci⟩
       cases op with
       | store b =>
-        apply store_any_good hW fx hg hv.1 ft
+        apply store_any_good hW fx hg hv.1 ft _ hb
         intro k e; subst e; exact hnf.1
       | revert => exact absurd hnr.1 (by simp)
-      | l1head v => exact ⟨c, misc_good fx hg _ (Or.inl ⟨v, rfl⟩) ft⟩
-      | snap => exact ⟨c, snap_good hW fx hg _ (Or.inl rfl) ft⟩
-      | restart => exact ⟨c, snap_good hW fx hg _ (Or.inr rfl) ft⟩
-      | kill => exact ⟨c, misc_good fx hg _ (Or.inr rfl) ft⟩
+      | l1head v => exact ⟨c, misc_good fx hg _ (Or.inl ⟨v, rfl⟩) ft hb⟩
+      | snap => exact ⟨c, snap_good hW fx hg _ (Or.inl rfl) ft hb⟩
+      | restart => exact ⟨c, snap_good hW fx hg _ (Or.inr rfl) ft hb⟩
+      | kill => exact ⟨c, misc_good fx hg _ (Or.inr rfl) ft hb⟩
       | prune e => exact absurd hnr.1 (by simp)
     obtain ⟨c', hg'⟩ := step
     exact ih _ c' hg' hv.2 hnr.2 hnf.2
